@@ -12,7 +12,7 @@
 (* "<cpu>_known_<dev>" means: not the WDC model, but exactly what the      *)
 (* named known deviation predicts (reported as KNOWN-FINDING).             *)
 (***************************************************************************)
-EXTENDS Cpu65816, Json
+EXTENDS Disasm, Json
 
 Trace == ndJsonDeserialize("cpu.ndjson")
 KnownDevs == {"dec_bcd"}
@@ -23,8 +23,6 @@ vars == <<l, bad, why>>
 Fill(seed, a) == ((a * 31) + ((a \div 256) * 17) + ((a \div 65536) * 7) + seed) % 256
 OvFn(e) == [a \in { e.ov[i][1] : i \in 1..Len(e.ov) } |->
               LET i == CHOOSE i \in 1..Len(e.ov) : e.ov[i][1] = a IN e.ov[i][2]]
-
-A(cond, name) == IF cond THEN {} ELSE {name}
 
 ModelWhy(e, side, name) ==
   LET ov == OvFn(e)
@@ -58,6 +56,11 @@ Why(e) ==
    ELSE A(~e.pri.panic, "pri_panic") \cup A(~e.alt.panic, "alt_panic"))
   \cup AcctWhy(e, e.pri, "pri") \cup AcctWhy(e, e.alt, "alt")
   \cup EquivWhy(e)
+  \cup (IF "line" \in DOMAIN e
+        THEN LET ov == OvFn(e)
+                 Rd(a) == IF a \in DOMAIN ov THEN ov[a] ELSE Fill(e.seed, a)
+             IN LineWhy(Rd, e.pre, e.line.pri, "pri") \cup LineWhy(Rd, e.pre, e.line.alt, "alt")
+        ELSE {})
 
 Init == l = 1 /\ bad = {} /\ why = <<>>
 Next == /\ l <= Len(Trace)
